@@ -30,6 +30,7 @@ def world_makers():
     return {
         "uni(q0)": lambda: catalog.uni_world("q0", closes=(200000, 200013, 199991, 199400, 200300, 200010)),
         "uni(q1)": lambda: catalog.uni_world("q1", closes=(200000, 200013, 199991, 199400, 200300, 200010)),
+        "uni(q0,late-price)": lambda: catalog.uni_world("q0", closes=(200000, 200013, 199991, 199400, 200300, 200010), late_price=True),
         "aave(path)": lambda: catalog.aave_path_world(5),
         "aave(path,late-listing)": lambda: catalog.aave_path_world(5, late_token="LINK"),
         "uni+aave": lambda: catalog.uni_aave_world(4),
@@ -51,7 +52,7 @@ SCALE = [("Tick", "add", 700), ("inAmount", "mul", 3), ("currentLiquidity", "mul
          ("variable_borrow_index", "mul", Decimal("1.11")), ("norm_factor", "mul", Decimal("0.9")), ("mark_price", "mul", 1.2), ("underlying_price", "mul", 0.8),
          ("aum", "mul", Decimal("1.5")), ("_usdg", "mul", 2.0), ("glp_price", "mul", Decimal("1.5")), ("poolValue", "mul", 1.3), ("longPrice", "mul", 0.7),
          ("indexPrice", "mul", 0.7), ("impactPoolAmount", "mul", 10.0), ("longAmount", "mul", 1.4), ("rate", "mul", Decimal("2"))]
-PRICE_SHOCK = {"WETH": Decimal("0.5"), "WBTC": Decimal("0.7"), "DAI": Decimal("1.02"), "USDC": Decimal("0.99"), "ETH": Decimal("0.8")}
+PRICE_SHOCK = {"LATE": Decimal("1.5"), "WETH": Decimal("0.5"), "WBTC": Decimal("0.7"), "DAI": Decimal("1.02"), "USDC": Decimal("0.99"), "ETH": Decimal("0.8")}
 
 
 def variant_hook(kind, cut_ts):
@@ -239,7 +240,10 @@ def judge_pair(part, wname, interval, sname, k_raw, vkind):
         _fresh0(var)
         px = var.frames["prices"]
         px = px.loc[px.index <= cut_ts]
-        if any((v is None) or (v != v) for col in px.columns for v in px[col]):
+        bpx = base.frames["prices"]
+        bpx = bpx.loc[bpx.index <= cut_ts]
+        # an empty price cell that the base history has as well (a token listed later) is part of the history, not a defect of the variant
+        if any(((v is None) or (v != v)) and not ((b is None) or (b != b)) for col in px.columns if col in bpx.columns for v, b in zip(px[col], bpx[col])):
             raise ValueError("the variant has no price for a bar of the common prefix")
     except Exception:  # noqa: BLE001  e.g. a one-row history at midnight, for which the price helper yields no rows: not a history to compare
         part.count("variant_not_buildable")
@@ -311,6 +315,11 @@ def judge_inputs(part, wname, interval, sname, tz=False):
     if changed:
         return  # the frames are no longer the inputs that were supplied: nothing to repeat
     try:
+        # a run leaves no trace in the PROCESS either: between the two identical runs the same world is run once at a coarser interval
+        other = "10min" if interval == "1min" and len(a["bars"]) <= 30 else None
+        if other and not tz:
+            INTERVALS.setdefault(other, 10)
+            run_once(w, sname, other)
         b = run_once(w, sname, interval)  # fresh Actuator, Broker and market objects on the SAME frames
     except Exception as e:  # noqa: BLE001
         part.violation("C02|inputs|rerun-raised", "repeating the backtest on the same inputs could not even be set up", case, {"error": repr(e)[:200]})
